@@ -1845,7 +1845,9 @@ pub fn type_check_module(
         if !missing_function_members.is_empty() {
           error_set.report_missing_class_member_definition_error(
             toplevel.name().loc,
-            missing_function_members.iter().copied().collect(),
+            // sorted: the set is a HashSet; its iteration order differs from process to process
+            // and would otherwise show up in the rendered list of missing members
+            missing_function_members.iter().copied().sorted().collect(),
           );
         }
         local_cx.write(c.loc, Arc::new(Type::Nominal(nominal_type)));
